@@ -420,7 +420,8 @@ class Func:
                     self.fail(n, "conversion of a %s to uint16_t" % v.kind)
                 if to == "int":
                     if v.kind in ("u16", "lit", "nat"): return v     # a nat seen as int only feeds a comparison / index again
-                    if v.kind == "bool": self.fail(n, "a truth value used as a number")
+                    if v.kind == "bool": return v     # a truth value promoted to int: accepted where it is used as a truth value again
+                                                      # (`summary ? a : b`, `if (summary)`); any numeric use is refused by the operators
                 if to == "nat":
                     if v.kind in ("nat", "lit"): return v
                     if v.kind == "sint": return V("nat", "(%s %% 18446744073709551616).toNat" % v.p()) if self.ft.canon(n["type"]) in ("unsigned long", "long unsigned int") \
